@@ -200,6 +200,83 @@ harness(void)
 #endif
 	WITNESS("end");
 }
+#elif defined(LATERECV)
+/* C01 / C16 (ii): fragments arrive while nobody is receiving and are parked; the receiver comes later
+ * (ws_str_recv -> ws_read_finish), possibly in the middle of the message.  NPARKED fragments (2 symbolic
+ * bytes each) are queued; COMPLETE says whether the last of them had FIN.  An incomplete message must never
+ * be handed up: the receive stays pending until the final fragment has arrived, and then gets the
+ * concatenation of all fragments in order. */
+#include "env_msg.h"
+#ifndef NPARKED
+#define NPARKED 1
+#endif
+#ifndef COMPLETE
+#define COMPLETE 0
+#endif
+void
+harness(void)
+{
+	nni_ws *ws = NULL;
+	nni_aio ua;
+	u8      pay[4][2];
+	CHECK(ws_init(&ws) == 0 && ws != NULL, "ws_init");
+	ws->server   = SERVER;
+	ws->ready    = true;
+	ws->isstream = false;
+	for (int i = 0; i < NPARKED; i++) {
+		ws_frame *f = NNI_ALLOC_STRUCT(f);
+		pay[i][0] = ND(u8), pay[i][1] = ND(u8);
+		f->sdata[0] = pay[i][0], f->sdata[1] = pay[i][1];
+		f->buf   = f->sdata;
+		f->len   = 2;
+		f->final = COMPLETE && (i == NPARKED - 1);
+		f->op    = i == 0 ? WS_BINARY : WS_CONT;
+		nni_list_append(&ws->rxq, f);
+	}
+	ws->inmsg = !COMPLETE;
+	nni_aio_init(&ua, NULL, NULL);
+	nni_aio_set_timeout(&ua, NNG_DURATION_INFINITE);
+	env_aio_submit(&ua);
+	ws_str_recv(ws, &ua);
+#if COMPLETE
+	CHECK(env_aio_completed(&ua) == 1 && nni_aio_result(&ua) == 0, "a complete parked message is delivered as soon as a receiver arrives");
+	int total = NPARKED;
+	WITNESS("delivered on arrival of the receiver");
+#else
+	CHECK(env_aio_completed(&ua) == 0, "a receiver that arrives in the middle of a fragmented message waits: no partial message is delivered");
+	{
+		int       n = 0;
+		ws_frame *qf;
+		NNI_LIST_FOREACH (&ws->rxq, qf) {
+			n++;
+		}
+		CHECK(n == NPARKED, "the parked fragments stay queued");
+	}
+	CHECK(ws->rxframe != NULL && rd_calls >= 1, "the next frame is being read");
+	/* the final fragment arrives (its header has been decoded and its payload read: stage 3 hands it to ws_read_frame_cb) */
+	ws_frame *lf = ws->rxframe;
+	pay[NPARKED][0] = ND(u8), pay[NPARKED][1] = ND(u8);
+	lf->sdata[0] = pay[NPARKED][0], lf->sdata[1] = pay[NPARKED][1];
+	lf->buf   = lf->sdata;
+	lf->len   = 2;
+	lf->op    = WS_CONT;
+	lf->final = true;
+	nni_mtx_lock(&ws->mtx);
+	ws_read_frame_cb(ws, lf);
+	nni_mtx_unlock(&ws->mtx);
+	CHECK(env_aio_completed(&ua) == 1 && nni_aio_result(&ua) == 0, "the message is delivered when its final fragment arrives");
+	int total = NPARKED + 1;
+	WITNESS("delivered after the final fragment");
+#endif
+	nni_msg *m = nni_aio_get_msg(&ua);
+	CHECK(m != NULL && nni_msg_len(m) == (size_t) 2 * total, "the delivered message has the total length of all its fragments");
+	size_t j = ND(usz);
+	ASSUME(j < (size_t) 2 * total);
+	CHECK(((u8 *) nni_msg_body(m))[j] == pay[j / 2][j % 2], "the delivered message is the concatenation of the fragments in order");
+	CHECK(nni_list_empty(&ws->rxq) && !ws->inmsg, "the fragments are consumed");
+	CHECK(env_locks_held == 0, "no lock held");
+	WITNESS("end");
+}
 #elif defined(FINISH)
 /* C16 (ii) reassembly + C20: NF data frames (payloads symbolic, 2 bytes each)
  * are queued, a receiver waits: the delivered message is their concatenation;
@@ -265,6 +342,24 @@ harness(void)
 	ws->recvmax   = ND(usz);
 	ws->inmsg     = ND(vbool);
 	ws->recv_text = ND(vbool);
+#ifdef NPARK
+	/* NPARK fragments (PLEN payload bytes each) of the message being reassembled are already queued:
+	 * the size rule is about the whole message, not the frame alone */
+	for (int i = 0; i < NPARK; i++) {
+		ws_frame *pf = NNI_ALLOC_STRUCT(pf);
+		pf->len      = PLEN;
+		pf->hlen     = 2 + (SERVER ? 4 : 0);
+		pf->buf      = pf->sdata;
+		pf->op       = i == 0 ? WS_BINARY : WS_CONT;
+		pf->final    = false;
+		nni_list_append(&ws->rxq, pf);
+	}
+	ws->inmsg = true;
+#define PARKED ((u64) NPARK * PLEN)
+#else
+#define NPARK 0
+#define PARKED ((u64) 0)
+#endif
 	bool inmsg0   = ws->inmsg;
 	frame         = NNI_ALLOC_STRUCT(frame);
 	ws->rxframe   = frame;
@@ -322,7 +417,14 @@ harness(void)
 			len = (len << 8) | frame->head[2 + i];
 	}
 	int minimal = (LCLASS == 0) || (LCLASS == 1 && len >= 126) || (LCLASS == 2 && len >= 65536);
-	int size_ok = (ws->maxframe == 0 || len <= ws->maxframe) && (ws->recvmax == 0 || len <= ws->recvmax);
+	int size_ok = (ws->maxframe == 0 || len <= ws->maxframe) && (ws->recvmax == 0 || (len <= ws->recvmax && len + PARKED <= ws->recvmax));
+	int nq      = 0;
+	{
+		ws_frame *qf;
+		NNI_LIST_FOREACH (&ws->rxq, qf) {
+			nq++;
+		}
+	}
 	int mask_ok = (MASKED != 0) == (SERVER != 0);
 	int hdr_rd  = (MASKED || LCLASS) ? 1 : 0;
 	if (!minimal || !size_ok || !mask_ok) {
@@ -331,7 +433,7 @@ harness(void)
 		    "close status: 1002 for non-minimal length or wrong masking, 1009 for size");
 		CHECK(rd_calls == hdr_rd, "no payload is requested for a refused frame");
 		CHECK(env_alloc_last_refused == 0, "no payload buffer is allocated for a refused frame");
-		CHECK(nni_list_empty(&ws->rxq), "nothing is queued for delivery");
+		CHECK(nq == NPARK, "nothing is queued for delivery");
 #if LCLASS
 		if (!minimal)
 			WITNESS("non-minimal length refused");
@@ -384,14 +486,14 @@ harness(void)
 		}
 		if (ok == 0) {
 			CHECK(ws->closed, "reserved opcode / RSV bit / continuation without start / start inside a message fails the connection");
-			CHECK(nni_list_empty(&ws->rxq), "refused frame is not queued");
+			CHECK(nq == NPARK, "refused frame is not queued");
 #if LCLASS == 0 && ((MASKED != 0) == (SERVER != 0)) && (OP != 1 && OP != 2 && OP != 8 && OP != 9 && OP != 10)
 			WITNESS("opcode refused");
 #endif
 		} else if (ok == 1) {
 			CHECK(!ws->closed, "valid empty frame keeps the connection");
 			if (op == WS_CONT || op == WS_TEXT || op == WS_BINARY) {
-				CHECK(nni_list_first(&ws->rxq) == frame, "data frame queued for reassembly");
+				CHECK(nni_list_last(&ws->rxq) == frame && nq == NPARK + 1, "data frame queued for reassembly behind the earlier fragments");
 				CHECK(ws->inmsg == !final, "message continues until a FIN frame");
 #if LCLASS == 0 && ((MASKED != 0) == (SERVER != 0))
 				WITNESS("data frame accepted");
